@@ -473,6 +473,9 @@ pub struct BatchConfig {
     pub verif_dir: PathBuf,
     pub evidence_path: Option<PathBuf>,
     pub selftest: bool,
+    /// Watchdog: a single plan that has been executing for longer than this (plans take micro- to
+    /// milliseconds) is reported as a `no-termination` violation with a replay file; the process exits.
+    pub plan_timeout_s: f64,
 }
 
 struct Found<P> {
@@ -544,10 +547,32 @@ pub fn run_batch<W: World>(
         samples: Vec<(u64, Value)>,
     }
 
+    // ---- watchdog: which plan each worker is executing and since when
+    let nworkers = workers.max(1);
+    let watch_idx: Vec<AtomicU64> = (0..nworkers).map(|_| AtomicU64::new(u64::MAX)).collect();
+    let watch_ms: Vec<AtomicU64> = (0..nworkers).map(|_| AtomicU64::new(0)).collect();
+    let batch_done = AtomicBool::new(false);
+    let worker_no = AtomicU64::new(0);
+
     let outs: Vec<WorkerOut> = std::thread::scope(|scope| {
+        let dog = scope.spawn(|| {
+            let limit_ms = (cfg.plan_timeout_s * 1000.0) as u64;
+            while !batch_done.load(Ordering::Relaxed) {
+                std::thread::sleep(std::time::Duration::from_millis(250));
+                let now = started.elapsed().as_millis() as u64;
+                for k in 0..nworkers {
+                    let idx = watch_idx[k].load(Ordering::Relaxed);
+                    let t0 = watch_ms[k].load(Ordering::Relaxed);
+                    if idx != u64::MAX && now.saturating_sub(t0) > limit_ms && watch_idx[k].load(Ordering::Relaxed) == idx {
+                        report_hang(w, cfg, idx, cfg.plan_timeout_s);
+                    }
+                }
+            }
+        });
         let mut handles = Vec::new();
-        for _ in 0..workers.max(1) {
+        for _ in 0..nworkers {
             handles.push(scope.spawn(|| {
+                let me = worker_no.fetch_add(1, Ordering::Relaxed) as usize % nworkers;
                 let mut out = WorkerOut {
                     stats: Stats::default(),
                     evaluations: 0,
@@ -572,7 +597,10 @@ pub fn run_batch<W: World>(
                         }
                         let plan = make_plan(w, cfg.seed, index, cfg.tier);
                         let pd = det_hash(&plan);
+                        watch_ms[me].store(started.elapsed().as_millis() as u64, Ordering::Relaxed);
+                        watch_idx[me].store(index, Ordering::Relaxed);
                         let r = execute_once(w, &plan, &mut out.stats, known, false);
+                        watch_idx[me].store(u64::MAX, Ordering::Relaxed);
                         out.evaluations += 1;
                         out.plans.push(pd);
                         if r.nontrivial {
@@ -600,7 +628,10 @@ pub fn run_batch<W: World>(
                 out
             }));
         }
-        handles.into_iter().map(|h| h.join().expect("worker panicked")).collect()
+        let outs = handles.into_iter().map(|h| h.join().expect("worker panicked")).collect();
+        batch_done.store(true, Ordering::Relaxed);
+        let _ = dog.join();
+        outs
     });
 
     let mut stats = Stats::default();
@@ -641,6 +672,90 @@ pub fn run_batch<W: World>(
         capped: capped.load(Ordering::Relaxed),
         wall_s: started.elapsed().as_secs_f64(),
     }
+}
+
+/// A plan did not come back: write a replay file and evidence, print the VIOLATION line, end the process.
+/// (The stuck worker thread cannot be stopped; nothing it holds is needed any more.)
+fn report_hang<W: World>(w: &W, cfg: &BatchConfig, index: u64, timeout_s: f64) -> ! {
+    let plan = make_plan(w, cfg.seed, index, cfg.tier);
+    let v = Violation {
+        class: "no-termination".to_string(),
+        key: format!("no-termination:{}", w.id()),
+        detail: format!("plan index {index} was still executing after {timeout_s} s (plans take micro- to milliseconds): the code under test does not return"),
+    };
+    let dir = cfg.verif_dir.join("replays");
+    let _ = std::fs::create_dir_all(&dir);
+    let path = dir.join(format!("{}-{}-{}-hang.json", w.id(), cfg.seed, index));
+    let rf = ReplayFile {
+        property: w.id().to_string(),
+        seed: cfg.seed,
+        index,
+        tier: cfg.tier.name().to_string(),
+        minimised: false,
+        shrink_executions: 0,
+        violation: v.clone(),
+        plan,
+        log: Vec::new(),
+        note: "not minimised: every shrinking step would have to wait for the watchdog".to_string(),
+        hang: true,
+        hang_timeout_s: timeout_s,
+    };
+    if let Ok(text) = serde_json::to_string_pretty(&rf) {
+        let _ = std::fs::write(&path, text);
+    }
+    if let Some(p) = &cfg.evidence_path {
+        let ev = json!({
+            "property_id": w.id(), "tier": cfg.tier.name(), "seed": cfg.seed, "level": "other", "wall_s": timeout_s, "violations": 1,
+            "coverage": {"evaluations": 1, "distinct_nontrivial": 1,
+                "explanation": "this run did not complete: one plan did not terminate within the watchdog limit, which is reported as a violation with a replay file; no exploration statistics exist for a run that was cut short",
+                "samples": [{"plan_index_that_did_not_terminate": index}], "replay": path.display().to_string()},
+            "assumptions": []
+        });
+        let _ = std::fs::write(p, serde_json::to_string_pretty(&ev).unwrap_or_default() + "\n");
+    }
+    println!("violation at plan index {index}: class={} key={}", v.class, v.key);
+    println!("  detail: {}", v.detail);
+    println!("VIOLATION property={} replay={}", w.id(), path.display());
+    std::process::exit(1);
+}
+
+/// Replay of a `no-termination` finding: execute the plan on a thread of its own; if it is still running
+/// after `timeout_s` the violation reproduces (the process exits from here, the stuck thread cannot be joined).
+fn replay_hang<W: World>(w: &W, plan: &W::Plan, known: &Known, timeout_s: f64, path: &Path) -> i32 {
+    let done = AtomicBool::new(false);
+    let started = Instant::now();
+    std::thread::scope(|scope| {
+        let h = scope.spawn(|| {
+            let mut stats = Stats::default();
+            let r = execute_once(w, plan, &mut stats, known, true);
+            done.store(true, Ordering::SeqCst);
+            r
+        });
+        while !done.load(Ordering::SeqCst) {
+            if started.elapsed().as_secs_f64() > timeout_s {
+                println!("replay-violation class=no-termination key=no-termination:{}", w.id());
+                println!("  detail: the plan was still executing after {timeout_s} s");
+                println!("VIOLATION property={} replay={}", w.id(), path.display());
+                std::process::exit(1);
+            }
+            std::thread::sleep(std::time::Duration::from_millis(50));
+        }
+        match h.join() {
+            Ok(r) => match r.violation {
+                Some(v) => {
+                    println!("replay-violation class={} key={}", v.class, v.key);
+                    println!("  detail: {}", v.detail);
+                    println!("VIOLATION property={} replay={}", w.id(), path.display());
+                    1
+                }
+                None => {
+                    println!("replay: the plan terminated after {:.1} s; no violation reproduced for property={}", started.elapsed().as_secs_f64(), w.id());
+                    0
+                }
+            },
+            Err(_) => 2,
+        }
+    })
 }
 
 // ---------------------------------------------------------------------------
@@ -696,6 +811,11 @@ pub struct ReplayFile<P> {
     pub log: Vec<String>,
     #[serde(default)]
     pub note: String,
+    /// the plan did not terminate (watchdog); replaying executes it under the same watchdog
+    #[serde(default)]
+    pub hang: bool,
+    #[serde(default)]
+    pub hang_timeout_s: f64,
 }
 
 pub fn replay_file<W: World>(w: &W, path: &Path, known: &Known) -> i32 {
@@ -713,6 +833,12 @@ pub fn replay_file<W: World>(w: &W, path: &Path, known: &Known) -> i32 {
             return 2;
         }
     };
+    if rf.hang {
+        // scoped threads join on scope exit, so a plan that really hangs never lets the scope end:
+        // run it on a detached helper process-wide and exit from here
+        let timeout = if rf.hang_timeout_s > 0.0 { rf.hang_timeout_s } else { 120.0 };
+        return replay_hang(w, &rf.plan, known, timeout, path);
+    }
     let mut stats = Stats::default();
     let r = execute_once(w, &rf.plan, &mut stats, known, true);
     for l in r.log.unwrap_or_default() {
@@ -863,6 +989,8 @@ pub fn run_check<W: World>(w: &W, cfg: &BatchConfig) -> i32 {
             plan: min_plan,
             log: r.log.unwrap_or_default(),
             note: format!("original violation before minimisation: class={} key={} :: {}", v.class, v.key, v.detail),
+            hang: false,
+            hang_timeout_s: 0.0,
         };
         match serde_json::to_string_pretty(&rf) {
             Ok(s) => {
